@@ -12,6 +12,51 @@ CHECKS = {
             "Every public read (Get, Has, GetWithIndex, GetByIndex, Size, Iterate, GetVersioned) of the working tree and of every retained version is compared with a versioned-map model after every step of thousands of short generated histories (tiny key universes, adjacent/prefix keys, no-op commits, small flush thresholds, reopenings at latest or older versions, pruning, rollbacks), each history executed under 3 independently drawn configurations incl. MemDB/PrefixDB/GoLevelDB. Held on the executions observed; not a proof.",
             "Trusted: the ~150-line model M; the instrumented storage seam. Histories are short (<=120 ops), DeleteVersionsTo only below the version the working tree is based on.",
             "DESIGN.md §3 C01"),
+    "C02": ("exploration",
+            "runtime monitoring: independent reference implementation R (validated against the repository's golden hashes on every case) compared with every hash the tree exposes after every step; twin run with read-only calls interleaved",
+            "Every SaveVersion hash, WorkingHash, Hash() and the ImmutableTree.Hash of every retained version are compared after every step with R, for histories with reopen / prune / rollback / rollback-to-version / redo of an existing version / non-default initial versions, executed twice: bare and with random read-only calls (reads, iteration, proofs, hash queries on working and committed trees) interleaved, also before the first commit; export/import hash for one history in three.",
+            "Trusted: R (internal/ref, no iavl import; re-validated against TestTreeHash's golden hashes in every process). In the run with interleaved reads the monitor deliberately does not call WorkingHash itself (it would memoise hashes and mask what it looks for).",
+            "DESIGN.md §3 C02"),
+    "C03": ("exploration",
+            "runtime monitoring: ICS-23 verification oracle (ics23.IavlSpec) over every probe key of every retained version and the working tree, with negative bindings",
+            "For every non-empty retained version (up to 4 newest per checkpoint) and the working tree, for every probe key: proof kind, content, verification against the version's root, non-membership neighbours = adjacent keys of the model, wrong-kind requests must fail, and the proof must not verify for another value / key / kind / root of a version where the claim is false.",
+            "Trusted: the ics23 verifier and IavlSpec; model M. Leaves with an empty value cannot be verified by ics23 and are checked for kind/content only.",
+            "DESIGN.md §3 C03"),
+    "C07": ("exploration",
+            "runtime monitoring: differential monitor indexed reads vs tree-walk reads after every step, plus raw fast-index audit with the independent decoder, every (re)open choosing index on/off and the version to load",
+            "After every step: Get vs GetWithIndex, MutableTree.Iterator/Iterate vs IterateRange, GetVersioned vs GetImmutable(v).GetWithIndex on working tree (incl. uncommitted changes), latest and older versions; raw 'f' entries and label vs the model after every commit/open with the index enabled.",
+            "Trusted: tree-walk reads as reference (guarded by the model battery), decoder D.",
+            "DESIGN.md §3 C07"),
+    "C08": ("exploration",
+            "runtime monitoring: model-based oracle over (start,end,direction) triples for all iteration interfaces and iterator implementations, incl. object-level contract (Domain, Valid after end/Close, Error, stop requests)",
+            "All ordered pairs of bounds from {nil, empty, stored keys, byte neighbours, prefixes, extensions, overlay-only / disk-only keys, below-min, above-max} x 2 directions (sampled) on committed, dirty working, historical and empty states; tree-walk Iterator, FastIterator, UnsavedFastIterator, IterateRange, IterateRangeInclusive, Iterate all against the model.",
+            "Trusted: model M and the stated bound conventions; Next() is never called on an invalid iterator.",
+            "DESIGN.md §3 C08"),
+    "C09": ("exploration",
+            "runtime monitoring: twin-run differential monitor (rolled-back tree vs fresh tree that replayed only the surviving history) in lock-step, plus model/reference/raw-audit monitors",
+            "Rollback(): working tree equals the last committed version on every read path. Rollback to v: later versions unavailable everywhere (live and reopened), kept versions unchanged, and every later outcome compared step by step with a twin; M/R/raw audit on the rolled-back store.",
+            "Trusted: M, R; twin construction from recorded per-version writes. Raw-store equality with the twin is recorded only.",
+            "DESIGN.md §3 C09"),
+    "C10": ("exploration",
+            "runtime monitoring: export stream vs reference post-order stream, import round trips (plain/compressed) judged by hash, model reads, ICS-23 proofs, raw audit and future commit hashes; hostile-stream fuzzing of the importers with panic/visibility oracle",
+            "Fidelity on generated histories incl. empty tree, single leaf, reference roots and >10000-node imports; totality on ~48000 (quick) hostile ExportNode sequences: no panic, and nothing visible unless Commit succeeded.",
+            "Trusted: R (stream, future hashes), M, ics23. Storage faults during import are C17's subject.",
+            "DESIGN.md §3 C10"),
+    "C11": ("exploration",
+            "runtime monitoring: shape invariants (AVL height bound, rank/key inverse) at checkpoints and per-call storage read counts through a counting storage wrapper with cache size 0",
+            "Insertion/removal phases up to 512 (quick) / 4096 (thorough) keys; Height() <= 1.4405*log2(n+2), GetByIndex/GetWithIndex inverse and consistent with sorted order incl. absent keys and out-of-range ranks; stored-node reads per call <= 2h+2 (Get, GetWithIndex, GetByIndex, Has) and <= 10h+10 (GetProof).",
+            "Trusted: model M; read counts taken at the storage seam ('s' key space), cache 0, fast index off.",
+            "DESIGN.md §3 C11"),
+    "C13": ("exploration",
+            "runtime monitoring: independent codec D vs reference tree R on raw storage after every step (byte-exact), D-encoded databases opened by the library, and decoder fuzzing with panic / allocation oracle",
+            "Forward and reverse format checks on generated histories (reference roots in 13- and 9-byte form, empty roots, fast index, varint boundary versions) and ~120000 (quick) mutated/random inputs to MakeNode, MakeLegacyNode, DeserializeNode, the varint/bytes decoders and the reference-root reader.",
+            "Trusted: D and R. A child link naming a pruned version's old root by its re-keyed key (v,0) is accepted as the same node (the library writes and resolves both).",
+            "DESIGN.md §3 C13"),
+    "C15": ("exploration",
+            "runtime monitoring: model-based oracle for extracted change sets (net writes per version) and replay of the extracted sets into an empty tree",
+            "TraverseStateChanges over full and random sub-ranges after every commit: each delivered version equals the model's net change (ascending, once per key, set entries also for unchanged values, delete entries for vanished keys), requested versions delivered; SaveChangeSet replay reproduces contents of every version, root hashes when the original writes were in normal form, and rejects removal of a missing key.",
+            "Trusted: model M incl. its per-version 'last op was a Set' bookkeeping; R for original hashes.",
+            "DESIGN.md §3 C15"),
     "C04": ("exploration",
             "runtime monitoring: before/after observation vectors (hash, contents, reads, ICS-23 proof verification) around every DeleteVersionsTo, live and after reopen; raw-store comparison for rejected requests; export pin",
             "Around every DeleteVersionsTo(n) in thousands of generated histories (no-op commits, empty versions, single-leaf roots, rollbacks + rewrites, deletions split over several physical batches by small flush thresholds), an observation vector of every later version is recorded before and compared after the call, on the live handle and on a freshly opened one; deleted versions must be unavailable on every API; rejected requests (latest version, version pinned by an open Exporter) must leave the raw store byte-identical.",
